@@ -1369,6 +1369,208 @@ def run_malformed(ctx):
     return bad_ctor
 
 
+# ------------------------------------------------------------------ (h) configuration lattices: finite differences, DFT, propagators
+
+FD_BOUNDARY = [[p, a, False] for p in (None, 0, 1) for a in (None, 0, 1)] + [[None, None, True]]
+
+
+def build_config(c):
+    """replayable configuration -> operator (raises what the constructor raises)"""
+    from scico import linop
+    from scico.linop import optics
+    k = c["kind"]
+    jit = c.get("jit", False)
+    if k == "SAFD":
+        return linop.SingleAxisFiniteDifference(tuple(c["shape"]), input_dtype=np.dtype(c["dtype"]).type, axis=c["axis"],
+                                                prepend=c["prepend"], append=c["append"], circular=c["circular"], jit=jit)
+    if k == "FD":
+        ax = c["axes"]
+        return linop.FiniteDifference(tuple(c["shape"]), input_dtype=np.dtype(c["dtype"]).type,
+                                      axes=tuple(ax) if isinstance(ax, list) else ax,
+                                      prepend=c["prepend"], append=c["append"], circular=c["circular"], jit=jit)
+    if k == "DFT":
+        return linop.DFT(tuple(c["shape"]), axes=None if c["axes"] is None else tuple(c["axes"]),
+                         axes_shape=None if c["axes_shape"] is None else tuple(c["axes_shape"]), jit=jit)
+    if k in ("ASP", "Fresnel"):
+        cls = optics.AngularSpectrumPropagator if k == "ASP" else optics.FresnelPropagator
+        dx = tuple(c["dx"]) if isinstance(c["dx"], list) else c["dx"]
+        return cls(tuple(c["shape"]), dx=dx, k0=c["k0"], z=c["z"], pad_factor=c["pad_factor"], jit=jit)
+    if k == "Fraunhofer":
+        dx = tuple(c["dx"]) if isinstance(c["dx"], list) else c["dx"]
+        return optics.FraunhoferPropagator(tuple(c["shape"]), dx=dx, k0=c["k0"], z=c["z"], jit=jit)
+    raise ValueError(k)
+
+
+def config_spec(c):
+    """what the documentation promises: (input shape, output shape) or None when the arguments are excluded"""
+    k = c["kind"]
+    shp = list(c["shape"])
+    if k == "SAFD":
+        ax = c["axis"]
+        if not -len(shp) <= ax < len(shp) or (c["circular"] and (c["prepend"] is not None or c["append"] is not None)):
+            return None
+        out = list(shp)
+        if not c["circular"]:
+            out[ax] += (c["prepend"] is not None) + (c["append"] is not None) - 1
+        return [shp, out]
+    if k == "FD":
+        ax = c["axes"]
+        axes = list(range(len(shp))) if ax is None else ([ax] if isinstance(ax, int) else list(ax))
+        if c["circular"] and (c["prepend"] is not None or c["append"] is not None):
+            return None
+        outs = []
+        for a in axes:
+            o = list(shp)
+            if not c["circular"]:
+                o[a] += (c["prepend"] is not None) + (c["append"] is not None) - 1
+            outs.append(o)
+        if all(o == outs[0] for o in outs):     # VerticalStack collapse rule
+            return [shp, [len(outs)] + outs[0]]
+        return [shp, outs]
+    if k == "DFT":
+        axes, ash = c["axes"], c["axes_shape"]
+        if axes is not None and ash is not None and len(axes) != len(ash):
+            return None
+        out = list(shp)
+        if ash is not None:
+            ax = list(range(len(shp) - len(ash), len(shp))) if axes is None else axes
+            for i, n in zip(ax, ash):
+                out[i] = n
+        return [shp, out]
+    return [shp, shp]       # propagators map the source plane to a plane of the same sampling
+
+
+def observe_config(c):
+    import scico.numpy as snp
+    from scico.linop import LinearOperator
+    try:
+        A = build_config(c)
+    except (ValueError, TypeError, IndexError, AssertionError) as e:
+        return {"ctor": type(e).__name__}
+    ob = {"ctor": None, "lin": isinstance(A, LinearOperator), "cls": type(A).__name__}
+    ob["ish"], ob["osh"] = canon_shape(A.input_shape), canon_shape(A.output_shape)
+    ob["idt"], ob["odt"] = dtn(A.input_dtype), dtn(A.output_dtype)
+    ob["isize"], ob["osize"] = int(A.input_size), int(A.output_size)
+    ob["mshape"] = [int(v) for v in A.matrix_shape]
+    ob["shape_attr_ok"] = canon_shape(A.shape[0]) == ob["osh"] and canon_shape(A.shape[1]) == ob["ish"]
+
+    def res(f, shp, d):
+        try:
+            y = f(snp.ones(tup(shp), dtype=np.dtype(d).type))
+            return [canon_shape(y.shape), dtn(y.dtype)]
+        except Exception as e:
+            return "raise:" + type(e).__name__
+    ob["call"] = res(A, ob["ish"], ob["idt"])
+    ob["adj"] = res(A.adj, ob["osh"], ob["odt"])
+    for nm in ("inv", "pinv"):
+        if hasattr(A, nm):
+            ob[nm] = res(getattr(A, nm), ob["osh"], ob["odt"])
+    if c.get("derived"):
+        for nm, f in (("H", lambda: A.H), ("gram_op", lambda: A.gram_op)):
+            try:
+                B = f()
+                ob[nm] = [canon_shape(B.input_shape), canon_shape(B.output_shape),
+                          res(B, canon_shape(B.input_shape), dtn(B.input_dtype))]
+            except Exception as e:
+                ob[nm] = "raise:" + type(e).__name__
+    return ob
+
+
+def config_failures(c, ob):
+    """(what, expected, observed, oracle) list: declared vs documented rule, declared vs actual"""
+    out = []
+    want = config_spec(c)
+    if ob["ctor"] is not None:
+        if want is not None:
+            out.append(("constructing a documented configuration raises", want, ob["ctor"], "documented argument range"))
+        return out
+    if want is None:
+        out.append(("a configuration the documentation excludes is accepted", "ValueError", [ob["ish"], ob["osh"]], "documented argument range"))
+        return out
+    if [ob["ish"], ob["osh"]] != want:
+        out.append(("declared shapes differ from the documented rule", want, [ob["ish"], ob["osh"]], "C12_fd_declared_eq_spec / C12_dft_shape"))
+    out += _O1_list(ob)
+    for nm in ("inv", "pinv"):
+        if nm in ob and ob[nm] != [ob["ish"], ob["odt"]] and not (isinstance(ob[nm], list) and ob[nm][0] == ob["ish"]):
+            out.append((f"{nm} of an array of the declared output shape does not return the declared input shape",
+                        ob["ish"], ob[nm], "inverse maps the output space to the input space"))
+    if "H" in ob:
+        if isinstance(ob["H"], str) or ob["H"][:2] != [ob["osh"], ob["ish"]] or isinstance(ob["H"][2], str) or ob["H"][2][0] != ob["ish"]:
+            out.append(("H of the operator does not map the declared output shape to the declared input shape",
+                        [ob["osh"], ob["ish"]], ob["H"], "operator calculus"))
+    if "gram_op" in ob:
+        if isinstance(ob["gram_op"], str) or ob["gram_op"][:2] != [ob["ish"], ob["ish"]] or isinstance(ob["gram_op"][2], str) \
+                or ob["gram_op"][2][0] != ob["ish"]:
+            out.append(("gram_op of the operator does not map the declared input shape to itself",
+                        [ob["ish"], ob["ish"]], ob["gram_op"], "operator calculus"))
+    return out
+
+
+def config_lattice(ctx):
+    rng = ctx.rng
+    must, more = [], []
+    # finite differences: every (prepend, append, circular) incl. the falsy values 0, every axis
+    for shp in ([6], [3, 4], [2, 3, 4]):
+        for ax in range(-len(shp), len(shp)):
+            for p, a, circ in FD_BOUNDARY:
+                c = {"kind": "SAFD", "shape": shp, "dtype": "float32", "axis": ax, "prepend": p, "append": a, "circular": circ}
+                (must if shp == [6] and ax == 0 else more).append(c)
+    for shp, axs in (([3, 4], [None, 0, 1, [0, 1], [1], -1]), ([2, 3, 4], [None, [0, 2], [1, 2]])):
+        for ax in axs:
+            for p, a, circ in FD_BOUNDARY:
+                c = {"kind": "FD", "shape": shp, "dtype": "float32", "axes": ax, "prepend": p, "append": a, "circular": circ}
+                (must if shp == [3, 4] and ax is None else more).append(c)
+    more += [{"kind": "SAFD", "shape": [5], "dtype": "complex64", "axis": 0, "prepend": 0, "append": 1, "circular": False, "jit": True},
+             {"kind": "FD", "shape": [3, 4], "dtype": "float64", "axes": None, "prepend": 1, "append": 0, "circular": False, "jit": True},
+             {"kind": "SAFD", "shape": [5], "dtype": "float32", "axis": 0, "prepend": 0, "append": None, "circular": True},
+             {"kind": "SAFD", "shape": [5], "dtype": "float32", "axis": 1, "prepend": None, "append": None, "circular": False}]
+    # DFT: (axes None / given) x (axes_shape None / padding / cropping / mixed)
+    dft = []
+    for shp in ([4], [3, 4], [2, 3, 4]):
+        r = len(shp)
+        for axes in [None] + [[r - 1]] + ([[0, r - 1], [-1]] if r > 1 else []):
+            k = r if axes is None else len(axes)
+            sel = shp if axes is None else [shp[i] for i in axes]
+            for ash in (None, [2 * n for n in sel], [n - 1 for n in sel], [n + (3 if j % 2 else -1) for j, n in enumerate(sel)]):
+                dft.append({"kind": "DFT", "shape": shp, "axes": axes, "axes_shape": ash})
+        if r > 1:   # axes None with a shorter axes_shape: applies to the trailing axes
+            dft.append({"kind": "DFT", "shape": shp, "axes": None, "axes_shape": [2 * shp[-1]]})
+            dft.append({"kind": "DFT", "shape": shp, "axes": None, "axes_shape": [shp[-1] - 1]})
+            dft.append({"kind": "DFT", "shape": shp, "axes": [0], "axes_shape": [4, 4]})   # length mismatch: excluded
+    must += [d for d in dft if d["shape"] == [3, 4] and d["axes"] is None]
+    more += [d for d in dft if not (d["shape"] == [3, 4] and d["axes"] is None)]
+    # optics propagators: pad_factor 1, 2, 3; 1-D and 2-D; scalar and anisotropic dx
+    prop = []
+    for kind in ("ASP", "Fresnel"):
+        for shp, dxs in (([8], [1.0, [0.5]]), ([6, 8], [1.0, [1.0, 0.5]])):
+            for dx in dxs:
+                for pf in (1, 2, 3):
+                    prop.append({"kind": kind, "shape": shp, "dx": dx, "k0": 4.0, "z": 2.0, "pad_factor": pf})
+    prop += [{"kind": "Fraunhofer", "shape": [8], "dx": 1.0, "k0": 4.0, "z": 2.0},
+             {"kind": "Fraunhofer", "shape": [6, 8], "dx": [1.0, 0.5], "k0": 4.0, "z": 2.0}]
+    must += [c for c in prop if c["kind"] == "ASP" and c["shape"] == [6, 8] and c["dx"] == [1.0, 0.5]]
+    must += [c for c in prop if c["kind"] == "Fresnel" and c["shape"] == [8] and c["dx"] == 1.0 and c["pad_factor"] == 2]
+    more += [c for c in prop if c not in must]
+    if ctx.quick:
+        more = rng.sample(more, 26)
+    cfgs = must + more
+    for c in rng.sample(cfgs, ctx.n(6, 60)):
+        c["derived"] = True
+    return cfgs
+
+
+def run_configs(ctx):
+    cfgs = config_lattice(ctx)
+    for c in cfgs:
+        ob = observe_config(c)
+        ctx.count("config:" + c["kind"], c)
+        for w, exp, got, orc in config_failures(c, ob):
+            inp = dict(c)
+            inp["declared"] = None if ob["ctor"] is not None else [ob["ish"], ob["osh"], ob["idt"], ob["odt"]]
+            ctx.violation("config:" + c["kind"], w, inp, expected=exp, observed=got, oracle=orc)
+    return cfgs
+
+
 # ------------------------------------------------------------------ run / replay
 
 def run(ctx: Ctx):
@@ -1409,6 +1611,7 @@ def run(ctx: Ctx):
     run_shapes(ctx)
     run_exprs(ctx)
     run_sweep(ctx)
+    run_configs(ctx)
     run_malformed(ctx)
     ctx.exhaustive = not ctx.quick  # slice lattice / class x dtype x form tables are complete in the thorough tier
 
@@ -1443,6 +1646,9 @@ def replay(ctx: Ctx, rec):
             if c & 8 or (c & 16 and t[0] in ("vstack", "dstack") and ob["ctor"] is None):
                 return False
         return not c2.violations
+    if unit.startswith("config:"):
+        c = {k: v for k, v in inp.items() if k != "declared"}
+        return not config_failures(c, observe_config(c))
     if unit.startswith("sweep:"):
         r = sweep_one(inp["class"], inp["dtype"], inp["form"])
         if r is None:
